@@ -1,5 +1,7 @@
 //! Scans an input string (source file) character by character.
 
+#[cfg(n2_verif)]
+use crate::verif::shim as std;
 use std::{io::Read, path::Path};
 
 #[derive(Debug)]
